@@ -325,6 +325,51 @@ pub fn check_block(
         );
         return BlockResult { compared: true, ok: false };
     }
+    // A list written with line breaks between its tags inside a white-space-preserving
+    // context (<pre>): the white space between the items is not an item, so the same
+    // markers must appear, one per <li>.  (Only the markers are compared: how the
+    // items' text wraps inside <pre> is not this property's subject.)
+    if matches!(kind, Kind::Ul | Kind::Ol(_)) && pfx.iter().all(|(a, _)| !a.trim().is_empty()) {
+        let mut src: Vec<u8> = b"<pre>".to_vec();
+        let list = &doc[0];
+        if let Node::El(e) = list {
+            let mut open = format!("<{}", e.tag);
+            for (k, v) in &e.attrs {
+                open.push_str(&format!(" {}=\"{}\"", k, v));
+            }
+            open.push_str(">\n");
+            src.extend_from_slice(open.as_bytes());
+            for ch in &e.children {
+                src.extend_from_slice(b"  ");
+                src.extend_from_slice(&ast::serialize(std::slice::from_ref(ch), &mut Fmt::canonical()));
+                src.push(b'\n');
+            }
+            src.extend_from_slice(format!("</{}></pre>", e.tag).as_bytes());
+            let markers = |lines: &[String]| -> Vec<usize> {
+                lines
+                    .iter()
+                    .filter_map(|l| pfx.iter().position(|(a, _)| l.starts_with(a.as_str())))
+                    .collect()
+            };
+            if let Outcome::Ok(sp) = render_string(cfg, &src, w) {
+                out.evals += 1;
+                out.inc("lists_in_pre_context");
+                let lp: Vec<String> = sp.lines().map(|l| l.to_string()).collect();
+                let (m1, m2) = (markers(&b_lines), markers(&lp));
+                if m1 != m2 {
+                    out.violate(
+                        format!("{}:markers-in-pre-context:{}", sigpfx, kind.name()),
+                        format!(
+                            "{} with {} items written with line breaks between its tags inside <pre>: {} marker lines instead of {}",
+                            kind.name(), items.len(), m2.len(), m1.len()
+                        ),
+                        witness(&src, w, cfg, json!({"got": lp, "without_pre": b_lines})),
+                    );
+                    return BlockResult { compared: true, ok: false };
+                }
+            }
+        }
+    }
     BlockResult { compared: true, ok: true }
 }
 
@@ -424,13 +469,18 @@ fn run_case(seed: u64, idx: u64, _tier: Tier, out: &mut CaseOut) {
         out.inc("nested_blocks");
     }
     let dt = gen_item(&mut rng, 0, true);
-    let mut cfg = match rng.below(5) {
+    let mut cfg = match rng.below(6) {
         0 => Cfg::plain_nd(),
         1 => Cfg::plain(),
         2 => Cfg::rich(),
         3 => Cfg::new(Deco::Custom(CustomSpec::ascii())),
+        // prefixes of other byte lengths / display widths (2-byte width-1, 3-byte width-2, empty)
+        4 => Cfg::new(Deco::Custom(super::c16::gen_spec(&mut rng))),
         _ => Cfg::trivial(),
     };
+    if matches!(&cfg.deco, Deco::Custom(s) if !s.bullet.is_ascii() || !s.quote.is_ascii() || !s.ol_suffix.is_ascii()) {
+        out.inc("non_ascii_prefix_decorators");
+    }
     cfg.footnotes = Some(false);
     for _ in 0..3 {
         let w = match rng.below(3) {
